@@ -88,6 +88,10 @@ func boundaryValues(width int, cur uint64) []uint64 {
 	if width == 4 {
 		// products with 128 (entry size) / count that overflow 31/32/63 bits
 		vals = append(vals, 0x01000000, 0x02000000, 0x00ffffff, 0x00800000, 0x04000000, 3, 4, 5, 6, 7, 8, 9, 127, 129, 256, 4096, 65536)
+		// the stored value with one high bit added: the low part stays plausible while sums and products with it wrap
+		for _, k := range []uint{16, 20, 22, 23, 24, 28, 30, 31} {
+			vals = append(vals, cur|1<<k)
+		}
 	}
 	if width <= 2 {
 		// small counts: one past the capacity of small fixed arrays (4 extents in an inode, 8/16 slots, ...)
